@@ -137,6 +137,8 @@ def run(tier, rep):
         for pf in prefixes.get(name, [[]]):
             j = job_of(name, gs, mode)
             j['prefix'] = pf
+            if tier == 'thorough':
+                j['limit'] = 2500     # per prefix job: keeps the thorough tier bounded; a cut job is reported as not exhaustive
             jobs.append(j)
     r = rng(PID, 'shuffle')
     r.shuffle(jobs)
